@@ -429,7 +429,7 @@ def c15_groups(tier):
     gs += [g for g in c08_groups(tier, 'C15') if 'translate' in g.name or 'lweKeySwitch' in g.name]
     dz = [g for g in c12_groups(tier, 'C15') if 'DecompH' in g.name and ('lemma' not in g.name)]
     if tier == 'quick':
-        dz = [g for g in dz if ('TLweDecompH' not in g.name and ('l=3.Bgbit=7' in g.name or 'l=2.Bgbit=10' in g.name)) or 'TLweDecompH.l=2.Bgbit=10.k=1' in g.name]
+        dz = [g for g in dz if ('TLweDecompH' not in g.name and ('l=3.Bgbit=7' in g.name or 'l=2.Bgbit=10' in g.name or 'l=1.Bgbit=8' in g.name)) or 'TLweDecompH.l=2.Bgbit=10.k=1' in g.name]
     gs += dz
     gs += [g for g in tlwe_groups('C15', tier) if 'Extract' in g.name]
     gs.append(StaticGroup('C15.static.no_rng', rng_scan))
@@ -479,7 +479,7 @@ def enc_groups(tag):
 
 def c03_groups(tier, tag='C03'):
     gs = [g for g in enc_groups(tag) if 'KeyGen' not in g.name]
-    for n in ([1, 2, 4, 8] if tier == 'quick' else [1, 2, 3, 4, 5, 8, 16, 32]):
+    for n in ([1, 2, 3, 4, 5, 6, 7, 8, 9, 11] if tier == 'quick' else list(range(1, 18)) + [23, 31, 32]):
         gs.append(Group('%s.pairing.bounded.n=%d' % (tag, n), 'c03_encrypt.c', 'h_b_pairing', extract=[(LF, 'lweSymEncrypt', S_), (LF, 'lwePhase')],
                         defines={'H_PAIRING': None, 'VERIF_BN': n}, unwind=n + 2, bounded=True, backend='z3', timeout=1200, instance={'n': n}))
     Ms = [2, 3, 4, 5, 7, 8, 16, 1000, 1024, 2048] if tier == 'quick' else sorted(set(C13_LISTED[:-1] + list(range(2, 65)) + [100, 255, 256, 257, 4095, 4097, 32767]))
@@ -493,6 +493,36 @@ def c03_groups(tier, tag='C03'):
 
 def c07_groups(tier, tag='C07'):
     return enc_groups(tag)
+
+
+TGF = 'tgsw-fft-operations.cpp'
+
+
+def c09_groups(tier, tag='C09'):
+    gs = []
+    shapes = [(1, 2), (1, 3), (2, 2)] if tier == 'quick' else [(1, 1), (1, 2), (1, 3), (1, 4), (2, 2), (2, 3), (3, 2)]
+    for (K, L) in shapes:
+        d = {'VERIF_K': K, 'VERIF_L': L}
+        U = (K + 1) * L + 3
+        inst = {'k': K, 'l': L}
+        gs.append(Group('%s.tGswExternMulToTLwe.k=%d.l=%d' % (tag, K, L), 'c09_extprod.c', 'h_tGswExternMulToTLwe', extract=[(TG, 'tGswExternMulToTLwe')],
+                        defines=dict(d, H_EXTMUL=None), unwind=U, cbmc=['--memory-leak-check'], instance=inst))
+        gs.append(Group('%s.tGswFFTExternMulToTLwe.k=%d.l=%d' % (tag, K, L), 'c09_extprod.c', 'h_tGswFFTExternMulToTLwe', extract=[(TGF, 'tGswFFTExternMulToTLwe')],
+                        defines=dict(d, H_FFTEXTMUL=None), unwind=U, cbmc=['--memory-leak-check'], instance=inst))
+        gs.append(Group('%s.tGswAddH.k=%d.l=%d' % (tag, K, L), 'c09_extprod.c', 'h_gadget_rows', extract=[(TG, 'tGswAddH')], defines=dict(d, H_ROWS=None), unwind=U, instance=inst))
+        for M in ['0', '1', '2', '3']:
+            gs.append(Group('%s.tGswAddMuIntH.k=%d.l=%d.m=%s' % (tag, K, L, M), 'c09_extprod.c', 'h_gadget_rows', extract=[(TG, 'tGswAddMuIntH')],
+                            defines=dict(d, H_ROWS=None, ROWS_INT=None, VERIF_MCONST=M), unwind=U, instance=dict(inst, message=M)))
+        gs.append(Group('%s.rowwise.k=%d.l=%d' % (tag, K, L), 'c09_extprod.c', 'h_tgsw_rowwise',
+                        extract=[(TGF, 'tGswToFFTConvert'), (TG, 'tGswClear'), (TG, 'tGswMulByXaiMinusOne')], defines=dict(d, H_CONVERT=None), unwind=U, instance=inst))
+    for (L, B) in ([(3, 7), (2, 10), (4, 8)] if tier == 'quick' else [(l, b) for (l, b) in valid_layouts() if l <= 8]):
+        for M in ['1', '3', '(-1)']:
+            gs.append(Group('%s.lemma.truncation.l=%d.Bgbit=%d.m=%s' % (tag, L, B, M), 'c09_extprod.c', 'h_lemma_truncation',
+                            defines={'H_TRUNC': None, 'VERIF_L': L, 'VERIF_BGBIT': B, 'VERIF_MCONST': M}, unwind=L + 2, backend='z3', instance={'l': L, 'Bgbit': B, 'm': M}))
+    # blind rotation loop and CMux step (shared with C04), decomposition contract (shared with C12)
+    gs += [g for g in boot_groups(tag) if 'blindRotate.' in g.name + '.' or 'blindRotate_FFT' in g.name or 'MuxRotate' in g.name]
+    gs += [g for g in c12_groups('quick', tag) if 'DecompH.l=3.Bgbit=7' in g.name or 'DecompH.l=2.Bgbit=10' in g.name]
+    return gs
 
 
 PROPS = {
@@ -659,6 +689,21 @@ PROPS = {
             'libstdc++ normal_distribution / uniform_int_distribution / default_random_engine: assumed contract (declared-only draws)',
             'no moment, tail, balance, independence or re-seeding claim is decided; TLWE/TGSW rows, bootstrapping-key and key-switching-key rows are not under contract yet',
             'the variance annotation alpha^2 is proved for the enumerated alphas (IEEE product, see DESIGN 8.2)',
+        ],
+        'trusted': [],
+    },
+    'C09': {
+        'groups': c09_groups,
+        'level': 'proof',
+        'explanation': 'Structure only: external product (coefficient-domain and FFT-domain) decomposes the accumulator before clearing it, then one '
+                       'multiply-accumulate per row with its own digit polynomial, temporaries released; gadget rows (message*h[i] on the block diagonal, nothing '
+                       'else); FFT image row by row; truncation identity per coefficient; blind-rotation loop and CMux step (see C04). The products themselves '
+                       'and every noise statement are assumed.',
+        'assumptions': STD_ASSUME + [
+            'the polynomial multiply-accumulate (tLweAddMulRTo / tLweFFTAddMulRTo / IntPolynomial_ifft / TorusPolynomial_fft) is a monitor: its numerical content (FFT, C10) is assumed; so "phase = m*phase(c) + bounded error" is NOT decided, only the exact structure that makes it so',
+            'k and l enumerated; message constants m in {0,1,2,3} for tGswAddMuIntH and {1,3,-1} for the truncation identity (symbolic 32x32 multipliers undecided)',
+            'tGswAddMuH (polynomial message) and tGswExternProduct are not under contract',
+            '"the FFT-domain key is a faithful image": only that every row is transformed once into its own slot',
         ],
         'trusted': [],
     },
